@@ -23,7 +23,8 @@ ENCODED = ['Resolver.yaml_implicit_resolvers (every live pattern and its first-c
 BOUNDS = {'quick': 'E2 language queries: unbounded string length; E1: resolve+construct for every str len<=2, int/float/timestamp templates with free digits, dump side for every str len<=2',
           'thorough': 'E1 with len<=3 and longer templates'}
 OUTSIDE = 'float rounding (sexagesimal floats are compared with a relative tolerance); repr(float)/isoformat shapes are modelled as languages (validated on samples); C loaders reach the same resolve() through libyaml events'
-ASSUMPTIONS = ['every unsat of z3 is cross-checked by the cvc5 binary on the SMT-LIB2 text of the same query (a disagreement is inconclusive)',
+ASSUMPTIONS = ['M12 (ts-fraction cells only): +, -, *, / on floats and int / int round to the nearest binary64 value, ties to even; everywhere else floats are exact rationals',
+               'every unsat of z3 is cross-checked by the cvc5 binary on the SMT-LIB2 text of the same query (a disagreement is inconclusive)',
                'oracle: spec/yaml11_types.py (YAML 1.1 type repository restricted to the documented dialect, deviations D1-D4 listed there)',
                'z3 sequence/regex theory; translator validated against re on the repository data scalars and on every witness',
                'M3 int / M3f float models for the E1 cells', 'floats are modelled as exact rationals (z3 Real) under symbolic execution: rounding is outside the claim']
@@ -285,6 +286,18 @@ def ts_template(form: int, d: str) -> str:
     return load_plain(s)
 
 
+def ts_fraction(n: int, d0: int, d1: int, d2: int, d3: int, d4: int, d5: int, d6: int, tz: int) -> str:
+    """fractional seconds with n free digits, read with binary64 rounding switched on (model M12):
+    the microsecond field is the first six digits of the fraction, exactly - a computation that
+    went through a binary float would be off by one for about 1 % of the fractions"""
+    ds = [d0, d1, d2, d3, d4, d5, d6]
+    d = ''
+    for i in range(7):
+        if i < n:
+            d += chr(48 + ds[i])
+    return load_plain('2001-12-14 21:59:43.' + d + ('' if tz == 0 else 'Z' if tz == 1 else ' -5'))
+
+
 # ------------------------------------------------------------------ E2 queries
 def _live_patterns():
     tags = {}
@@ -420,7 +433,8 @@ def smt_checks(tier):
 
 
 def selftests():
-    out = [pymodels.selftest_int_float()]
+    from symex import models
+    out = [pymodels.selftest_int_float(), models.selftest_rnd64()]
     # the reference evaluator on the repository's own construct-*.data expectations (sanity of the oracle)
     n = 0
     for txt, want in [('685230', 685230), ('+685_230', 685230), ('02472256', 685230), ('0x_0A_74_AE', 685230), ('0b1010_0111_0100_1010_1110', 685230),
@@ -476,4 +490,10 @@ def jobs(tier):
         js.append(Job('ts-template/%d' % f, ts_template, [lambda form, d, _f=f: form == _f and len(d) == TSL],
                       budget=200 if q else 1800, need_reach=False,
                       bounds='timestamp form %d with %d free characters' % (f, TSL)))
+    for n in ([4, 6] if q else [1, 2, 3, 4, 5, 6, 7]):
+        js.append(Job('ts-fraction/%d-digits' % n, ts_fraction,
+                      [lambda n, d0, d1, d2, d3, d4, d5, d6, tz, _n=n: n == _n and 0 <= d0 <= 9 and 0 <= d1 <= 9 and 0 <= d2 <= 9 and 0 <= d3 <= 9 and
+                       0 <= d4 <= 9 and 0 <= d5 <= 9 and 0 <= d6 <= 9 and (tz == 0 if q else 0 <= tz <= 2)],
+                      budget=200 if q else 900, ieee=True,
+                      bounds='timestamp with a fraction of %d free digits; float arithmetic rounded to binary64 (M12)' % n))
     return js
